@@ -91,8 +91,30 @@ class _Expr(ast.NodeTransformer):
                 if isinstance(n, ast.Assign) and len(n.targets) == 1 and isinstance(n.targets[0], ast.Name) and count.get(n.targets[0].id) == 1:
                     self.defs[n.targets[0].id] = n.value
 
+    @staticmethod
+    def _getattr_default(node):
+        """getattr(<pure read>, '<name>', <constant default>) -> (object expr, name, default value) or None"""
+        if isinstance(node, ast.Call) and dotted(node.func) == "getattr" and len(node.args) == 3 and not node.keywords \
+                and isinstance(node.args[1], ast.Constant) and isinstance(node.args[1].value, str) and node.args[1].value.isidentifier() \
+                and isinstance(node.args[2], ast.Constant) and (isinstance(node.args[0], ast.Name) or _attr_chain(node.args[0])):
+            return node.args[0], node.args[1].value, node.args[2].value
+        return None
+
+    @staticmethod
+    def _has_and(obj, name, test):
+        has = ast.Call(func=ast.Name(id="hasattr", ctx=ast.Load()), args=[copy.deepcopy(obj), ast.Constant(value=name)], keywords=[])
+        return has, test
+
     def visit_UnaryOp(self, node):
         self.generic_visit(node)
+        if isinstance(node.op, ast.Not):
+            g = self._getattr_default(node.operand)
+            if g is not None and g[2] in (False, None):
+                # not getattr(x, 'a', False)  ==  not hasattr(x, 'a') or not x.a
+                obj, name, _ = g
+                has = ast.Call(func=ast.Name(id="hasattr", ctx=ast.Load()), args=[copy.deepcopy(obj), ast.Constant(value=name)], keywords=[])
+                attr = ast.Attribute(value=copy.deepcopy(obj), attr=name, ctx=ast.Load())
+                return ast.copy_location(ast.BoolOp(op=ast.Or(), values=[ast.UnaryOp(op=ast.Not(), operand=has), ast.UnaryOp(op=ast.Not(), operand=attr)]), node)
         if isinstance(node.op, ast.Not) and isinstance(node.operand, ast.Compare) and len(node.operand.ops) == 1:
             inv = _neg_op(node.operand)
             if inv is not None:
@@ -117,6 +139,28 @@ class _Expr(ast.NodeTransformer):
 
     def visit_Compare(self, node):
         self.generic_visit(node)
+        g = self._getattr_compare(node)
+        if g is not None:
+            return g
+        return self._compare_rest(node)
+
+    def _getattr_compare(self, node):
+        # getattr(x, 'a', None) is not None  ==  hasattr(x, 'a') and x.a is not None   (and the `is None` dual)
+        if len(node.ops) == 1 and isinstance(node.ops[0], (ast.Is, ast.IsNot)) and isinstance(node.comparators[0], ast.Constant) \
+                and node.comparators[0].value is None:
+            g = self._getattr_default(node.left)
+            if g is not None and g[2] is None:
+                obj, name, _ = g
+                has = ast.Call(func=ast.Name(id="hasattr", ctx=ast.Load()), args=[copy.deepcopy(obj), ast.Constant(value=name)], keywords=[])
+                attr = ast.Attribute(value=copy.deepcopy(obj), attr=name, ctx=ast.Load())
+                if isinstance(node.ops[0], ast.IsNot):
+                    return ast.copy_location(ast.BoolOp(op=ast.And(), values=[
+                        has, ast.Compare(left=attr, ops=[ast.IsNot()], comparators=[ast.Constant(value=None)])]), node)
+                return ast.copy_location(ast.BoolOp(op=ast.Or(), values=[
+                    ast.UnaryOp(op=ast.Not(), operand=has), ast.Compare(left=attr, ops=[ast.Is()], comparators=[ast.Constant(value=None)])]), node)
+        return None
+
+    def _compare_rest(self, node):
         # membership in a literal display: list / tuple / set are interchangeable
         for i, (op, c) in enumerate(zip(node.ops, node.comparators)):
             if isinstance(op, (ast.In, ast.NotIn)) and isinstance(c, (ast.List, ast.Set)) and all(isinstance(e, ast.Constant) for e in c.elts):
@@ -171,6 +215,71 @@ class _Expr(ast.NodeTransformer):
             return ast.copy_location(ast.Constant(value="".join(v.value for v in parts)), node)
         node.values = parts
         return node
+
+    def _pair_target(self, node):
+        """[f(a, b) for a, b in product(A, B)]  ->  [f(p[0], p[1]) for p in product(A, B)]: the elements of product / zip /
+        enumerate / dict.items() are tuples of exactly that many items, so unpacking in the target and indexing are the same"""
+        for g in node.generators:
+            t = g.target
+            if not (isinstance(t, ast.Tuple) and t.elts and all(isinstance(e, ast.Name) for e in t.elts)):
+                continue
+            it = g.iter
+            if isinstance(it, ast.Name) and it.id in getattr(self, "defs", {}):
+                it = self.defs[it.id]
+            d = dotted(it.func) if isinstance(it, ast.Call) else None
+            n = len(t.elts)
+            only = getattr(self, "PAIR_SOURCES", None)
+            if only is not None and d not in only:
+                continue
+            ok = (d in ("product", "itertools.product", "zip") and len(it.args) == n and not it.keywords and not any(isinstance(a, ast.Starred) for a in it.args)) \
+                or (d == "enumerate" and n == 2) \
+                or (isinstance(it, ast.Call) and isinstance(it.func, ast.Attribute) and it.func.attr == "items" and not it.args and n == 2)
+            if not ok:
+                continue
+            names = [e.id for e in t.elts]
+            if len(set(names)) != n:
+                continue
+            # the names must not be re-bound inside the comprehension (nested comprehension targets)
+            inner_targets = {x.id for h in node.generators if h is not g for x in ast.walk(h.target) if isinstance(x, ast.Name)}
+            if inner_targets & set(names):
+                continue
+            self._pair_counter = getattr(self, "_pair_counter", 0) + 1
+            pv = f"p__{self._pair_counter}"
+            idx = {nm: i for i, nm in enumerate(names)}
+
+            class Sub(ast.NodeTransformer):
+                def visit_Name(self_, x):
+                    if isinstance(x.ctx, ast.Load) and x.id in idx:
+                        return ast.copy_location(ast.Subscript(value=ast.Name(id=pv, ctx=ast.Load()), slice=ast.Constant(value=idx[x.id]), ctx=ast.Load()), x)
+                    return x
+
+            g.target = ast.copy_location(ast.Name(id=pv, ctx=ast.Store()), t)
+            g.ifs = [Sub().visit(c) for c in g.ifs]
+            later = node.generators[node.generators.index(g) + 1:]
+            for h in later:
+                h.iter = Sub().visit(h.iter)
+                h.ifs = [Sub().visit(c) for c in h.ifs]
+            if isinstance(node, ast.DictComp):
+                node.key, node.value = Sub().visit(node.key), Sub().visit(node.value)
+            else:
+                node.elt = Sub().visit(node.elt)
+        return node
+
+    def visit_ListComp(self, node):
+        self.generic_visit(node)
+        return self._pair_target(node)
+
+    def visit_GeneratorExp(self, node):
+        self.generic_visit(node)
+        return self._pair_target(node)
+
+    def visit_SetComp(self, node):
+        self.generic_visit(node)
+        return self._pair_target(node)
+
+    def visit_DictComp(self, node):
+        self.generic_visit(node)
+        return self._pair_target(node)
 
     def visit_BinOp(self, node):
         self.generic_visit(node)
